@@ -82,6 +82,35 @@ theorem error_not_cached (cfg : Cfg) (st : St) (now key : Nat) (answers : List A
   subst hk
   simp [ha', hp, hn]
 
+/-- The loop tests the error before the boolean: if the first answer that is not `(false, nil)`
+    carries an error — `(false, e)` **or** `(true, e)` — the loop's result is the error. -/
+theorem ask_error_of_first_err (pre post : List Ans) (a : Ans)
+    (hpre : ∀ x ∈ pre, x = .no) (ha : a.hasErr = true) :
+    (ask (pre ++ a :: post)).1 = .error := by
+  induction pre with
+  | nil => cases a <;> simp [ask, Ans.hasErr] at ha ⊢
+  | cons x pre ih =>
+    have hx : x = .no := hpre x (by simp)
+    subst hx
+    simp only [List.cons_append, ask]
+    exact ih (fun y hy => hpre y (by simp [hy]))
+
+/-- `error_never_admits` for the full alphabet {true,false}×{nil,err}: an application that answers
+    `(true, err)` (recognized, but with an error) before any clean recognition does **not** admit
+    the peer, and nothing is remembered in either cache. -/
+theorem recognized_with_error_never_admits (cfg : Cfg) (st : St) (now key : Nat)
+    (pre post : List Ans) (a : Ans) (hpre : ∀ x ∈ pre, x = .no) (ha : a.hasErr = true)
+    (hal : cfg.allow.contains key = false)
+    (hp : has (sweep cfg.posSpan now st.pos) key = false)
+    (hn : has (sweep cfg.negSpan now st.neg) key = false) :
+    (validate cfg st now key (pre ++ a :: post)).1 = .error ∧
+    has (validate cfg st now key (pre ++ a :: post)).2.2.pos key = false ∧
+    has (validate cfg st now key (pre ++ a :: post)).2.2.neg key = false := by
+  have he := error_never_admits cfg st now key _ hal hp hn (ask_error_of_first_err pre post a hpre ha)
+  exact ⟨he, (error_not_cached cfg st now key _ he).2⟩
+
+example : (validate ⟨[], 43200, 3600⟩ St.empty 0 7 [.no, .yesErr, .yes]).1 = .error := by decide
+
 /-- A verdict served from the allowlist or a cache calls no application. -/
 theorem cached_calls_nobody (cfg : Cfg) (st : St) (now key : Nat) (answers : List Ans)
     (h : cfg.allow.contains key = true ∨ has (sweep cfg.posSpan now st.pos) key = true ∨
@@ -234,6 +263,179 @@ theorem reachable_no_stale (cfg : Cfg) (steps : List Step) (adv k : Nat) :
   intro st now
   have h := inv_after cfg steps St.empty 0 inv_empty
   exact ⟨no_stale_beyond_period _ _ _ h.1.1 k, no_stale_beyond_period _ _ _ h.2.1 k⟩
+
+/-! ## Trace theorem: every admission is justified by the history -/
+
+/-- seconds that pass during a list of steps -/
+def advSum (l : List Step) : Nat := (l.map (·.adv)).sum
+
+theorem advSum_snoc (l : List Step) (s : Step) : advSum (l ++ [s]) = advSum l + s.adv := by
+  simp [advSum]
+
+theorem after_append (cfg : Cfg) (l1 l2 : List Step) : ∀ (st : St) (now : Nat),
+    after cfg st now (l1 ++ l2) = after cfg (after cfg st now l1).1 (after cfg st now l1).2 l2 := by
+  induction l1 with
+  | nil => intro st now; rfl
+  | cons s l1 ih => intro st now; simp only [List.cons_append, after]; exact ih _ _
+
+theorem after_snoc (cfg : Cfg) (l : List Step) (s : Step) (st : St) (now : Nat) :
+    after cfg st now (l ++ [s]) =
+      ((validate cfg (after cfg st now l).1 ((after cfg st now l).2 + s.adv) s.key s.answers).2.2,
+        (after cfg st now l).2 + s.adv) := by
+  rw [after_append]; rfl
+
+/-- After the history `pre` the applications are really consulted for step `s`: its key is not
+    allowlisted and neither cache (swept at that time) holds it. -/
+def Consulted (cfg : Cfg) (pre : List Step) (s : Step) : Prop :=
+  cfg.allow.contains s.key = false ∧
+  has (sweep cfg.posSpan ((after cfg St.empty 0 pre).2 + s.adv) (after cfg St.empty 0 pre).1.pos) s.key = false ∧
+  has (sweep cfg.negSpan ((after cfg St.empty 0 pre).2 + s.adv) (after cfg St.empty 0 pre).1.neg) s.key = false
+
+/-- A cache entry is justified by the history `pre` (ending at clock `now`): some earlier step for
+    the same key consulted the applications, got verdict `v`, and the entry carries that step's time. -/
+def Justified (cfg : Cfg) (v : Verdict) (pre : List Step) (e : Entry) (now : Nat) : Prop :=
+  ∃ pre1 s' pre2, pre = pre1 ++ s' :: pre2 ∧ s'.key = e.key ∧ (ask s'.answers).1 = v ∧
+    Consulted cfg pre1 s' ∧ e.t + advSum pre2 = now
+
+private theorem mem_add (span now : Nat) (c : Cache) (k : Nat) (e : Entry) (h : e ∈ add span now c k) :
+    e ∈ c ∨ (e = ⟨k, now⟩ ∧ has c k = false) := by
+  unfold add at h
+  split at h
+  · exact Or.inl h
+  · rename_i hk
+    rcases List.mem_cons.1 h with rfl | h
+    · exact Or.inr ⟨rfl, by simpa using hk⟩
+    · exact Or.inl ((sweep_sublist span now c).subset h)
+
+/-- where the entries of the caches after one validation come from -/
+private theorem validate_mem (cfg : Cfg) (st : St) (now key : Nat) (answers : List Ans) :
+    (∀ e ∈ (validate cfg st now key answers).2.2.pos, e ∈ st.pos ∨
+      (e = ⟨key, now⟩ ∧ cfg.allow.contains key = false ∧ has (sweep cfg.posSpan now st.pos) key = false ∧
+        has (sweep cfg.negSpan now st.neg) key = false ∧ (ask answers).1 = .accept)) ∧
+    (∀ e ∈ (validate cfg st now key answers).2.2.neg, e ∈ st.neg ∨
+      (e = ⟨key, now⟩ ∧ cfg.allow.contains key = false ∧ has (sweep cfg.posSpan now st.pos) key = false ∧
+        has (sweep cfg.negSpan now st.neg) key = false ∧ (ask answers).1 = .reject)) := by
+  have sp := fun e (h : e ∈ sweep cfg.posSpan now st.pos) => (sweep_sublist cfg.posSpan now st.pos).subset h
+  have sn := fun e (h : e ∈ sweep cfg.negSpan now st.neg) => (sweep_sublist cfg.negSpan now st.neg).subset h
+  unfold validate
+  by_cases ha : key ∈ cfg.allow
+  · simp [ha]
+  · have ha' : cfg.allow.contains key = false := by simpa using ha
+    by_cases hp : has (sweep cfg.posSpan now st.pos) key = true
+    · simp only [List.contains_eq_mem, ha, decide_false, Bool.false_eq_true, if_false, hp, if_true]
+      exact ⟨fun e h => Or.inl (sp e h), fun e h => Or.inl (sn e h)⟩
+    · by_cases hn : has (sweep cfg.negSpan now st.neg) key = true
+      · simp only [List.contains_eq_mem, ha, decide_false, Bool.false_eq_true, if_false, hp, hn, if_true]
+        exact ⟨fun e h => Or.inl (sp e h), fun e h => Or.inl (sn e h)⟩
+      · have hp' : has (sweep cfg.posSpan now st.pos) key = false := by simpa using hp
+        have hn' : has (sweep cfg.negSpan now st.neg) key = false := by simpa using hn
+        simp only [List.contains_eq_mem, ha, decide_false, Bool.false_eq_true, if_false, hp, hn]
+        rcases hk : ask answers with ⟨v, n⟩
+        cases v
+        · refine ⟨fun e h => ?_, fun e h => Or.inl (sn e h)⟩
+          rcases mem_add _ _ _ _ _ h with h | ⟨h, _⟩
+          · exact Or.inl (sp e h)
+          · exact Or.inr ⟨h, by simp⟩
+        · refine ⟨fun e h => Or.inl (sp e h), fun e h => ?_⟩
+          rcases mem_add _ _ _ _ _ h with h | ⟨h, _⟩
+          · exact Or.inl (sn e h)
+          · exact Or.inr ⟨h, by simp⟩
+        · exact ⟨fun e h => Or.inl (sp e h), fun e h => Or.inl (sn e h)⟩
+
+private theorem justified_snoc (cfg : Cfg) (v : Verdict) (pre : List Step) (s : Step) (e : Entry) (now : Nat)
+    (h : Justified cfg v pre e now) : Justified cfg v (pre ++ [s]) e (now + s.adv) := by
+  obtain ⟨pre1, s', pre2, h1, h2, h3, h4, h5⟩ := h
+  refine ⟨pre1, s', pre2 ++ [s], by rw [h1]; simp, h2, h3, h4, ?_⟩
+  rw [advSum_snoc]; omega
+
+/-- Invariant of every history from a fresh firewall: each positive entry comes from a consultation
+    that answered "recognized", each negative entry from one where every application answered
+    "not recognized" (never from an error), stamped with that step's time. -/
+theorem entries_justified (cfg : Cfg) (pre : List Step) :
+    (∀ e ∈ (after cfg St.empty 0 pre).1.pos, Justified cfg .accept pre e (after cfg St.empty 0 pre).2) ∧
+    (∀ e ∈ (after cfg St.empty 0 pre).1.neg, Justified cfg .reject pre e (after cfg St.empty 0 pre).2) := by
+  suffices h : ∀ r : List Step,
+      (∀ e ∈ (after cfg St.empty 0 r.reverse).1.pos,
+        Justified cfg .accept r.reverse e (after cfg St.empty 0 r.reverse).2) ∧
+      (∀ e ∈ (after cfg St.empty 0 r.reverse).1.neg,
+        Justified cfg .reject r.reverse e (after cfg St.empty 0 r.reverse).2) by
+    simpa using h pre.reverse
+  intro r
+  induction r with
+  | nil => simp [after, St.empty]
+  | cons s r ih =>
+    rw [List.reverse_cons, after_snoc]
+    obtain ⟨vp, vn⟩ := validate_mem cfg (after cfg St.empty 0 r.reverse).1
+      ((after cfg St.empty 0 r.reverse).2 + s.adv) s.key s.answers
+    refine ⟨fun e he => ?_, fun e he => ?_⟩
+    · rcases vp e he with h | ⟨h1, h2, h3, h4, h5⟩
+      · exact justified_snoc cfg _ _ s e _ (ih.1 e h)
+      · exact ⟨r.reverse, s, [], rfl, by rw [h1], h5, ⟨h2, h3, h4⟩, by rw [h1]; simp [advSum]⟩
+    · rcases vn e he with h | ⟨h1, h2, h3, h4, h5⟩
+      · exact justified_snoc cfg _ _ s e _ (ih.2 e h)
+      · exact ⟨r.reverse, s, [], rfl, by rw [h1], h5, ⟨h2, h3, h4⟩, by rw [h1]; simp [advSum]⟩
+
+/-- **Trace theorem.**  For every history `pre` on a fresh firewall and every next step `s`: if `s`
+    is admitted then its key is allowlisted, or some step `s'` at or before `s` for the same key
+    consulted the applications, the first answer that was not "not recognized" was a clean
+    "recognized", and at most `posSpan` seconds passed from `s'` to `s`. -/
+theorem admit_traces_back (cfg : Cfg) (pre : List Step) (s : Step)
+    (h : (validate cfg (after cfg St.empty 0 pre).1 ((after cfg St.empty 0 pre).2 + s.adv)
+            s.key s.answers).1 = .accept) :
+    cfg.allow.contains s.key = true ∨
+    ∃ pre1 s' pre2, pre ++ [s] = pre1 ++ s' :: pre2 ∧ s'.key = s.key ∧
+      (ask s'.answers).1 = .accept ∧ Consulted cfg pre1 s' ∧ advSum pre2 ≤ cfg.posSpan := by
+  have hinv := inv_after cfg pre St.empty 0 inv_empty
+  by_cases ha : cfg.allow.contains s.key = true
+  · exact Or.inl ha
+  · right
+    have ha' : cfg.allow.contains s.key = false := by simpa using ha
+    by_cases hp : has (sweep cfg.posSpan ((after cfg St.empty 0 pre).2 + s.adv)
+        (after cfg St.empty 0 pre).1.pos) s.key = true
+    · obtain ⟨e, he, hk, ht⟩ := (no_stale_beyond_period _ _ _ hinv.1.1 s.key).1 hp
+      obtain ⟨pre1, s', pre2, h1, h2, h3, h4, h5⟩ := (entries_justified cfg pre).1 e he
+      refine ⟨pre1, s', pre2 ++ [s], by rw [h1]; simp, by rw [h2, hk], h3, h4, ?_⟩
+      rw [advSum_snoc]; omega
+    · have hp' : has (sweep cfg.posSpan ((after cfg St.empty 0 pre).2 + s.adv)
+          (after cfg St.empty 0 pre).1.pos) s.key = false := by simpa using hp
+      rcases (validate_spec cfg _ _ s.key s.answers).1 h with h1 | h1 | ⟨h1, h2⟩
+      · exact absurd h1 ha
+      · exact absurd h1 hp
+      · exact ⟨pre, s, [], rfl, rfl, by simpa [firstDecisiveYes] using h2, ⟨ha', hp', h1⟩,
+          by simp [advSum]⟩
+
+/-- Companion: a rejection traces back to a consultation, at most `negSpan` seconds earlier, in
+    which **every** application answered a clean "not recognized" — never to an error. -/
+theorem reject_traces_back (cfg : Cfg) (pre : List Step) (s : Step)
+    (h : (validate cfg (after cfg St.empty 0 pre).1 ((after cfg St.empty 0 pre).2 + s.adv)
+            s.key s.answers).1 = .reject) :
+    ∃ pre1 s' pre2, pre ++ [s] = pre1 ++ s' :: pre2 ∧ s'.key = s.key ∧
+      (ask s'.answers).1 = .reject ∧ Consulted cfg pre1 s' ∧ advSum pre2 ≤ cfg.negSpan := by
+  have hinv := inv_after cfg pre St.empty 0 inv_empty
+  have hna : ¬ (validate cfg (after cfg St.empty 0 pre).1 ((after cfg St.empty 0 pre).2 + s.adv)
+      s.key s.answers).1 = .accept := by rw [h]; decide
+  have hspec := validate_spec cfg (after cfg St.empty 0 pre).1 ((after cfg St.empty 0 pre).2 + s.adv)
+    s.key s.answers
+  have ha' : cfg.allow.contains s.key = false := by
+    cases hc : cfg.allow.contains s.key with
+    | false => rfl
+    | true => exact absurd (hspec.2 (Or.inl hc)) hna
+  have hp' : has (sweep cfg.posSpan ((after cfg St.empty 0 pre).2 + s.adv)
+      (after cfg St.empty 0 pre).1.pos) s.key = false := by
+    cases hc : has (sweep cfg.posSpan ((after cfg St.empty 0 pre).2 + s.adv)
+      (after cfg St.empty 0 pre).1.pos) s.key with
+    | false => rfl
+    | true => exact absurd (hspec.2 (Or.inr (Or.inl hc))) hna
+  by_cases hn : has (sweep cfg.negSpan ((after cfg St.empty 0 pre).2 + s.adv)
+      (after cfg St.empty 0 pre).1.neg) s.key = true
+  · obtain ⟨e, he, hk, ht⟩ := (no_stale_beyond_period _ _ _ hinv.2.1 s.key).1 hn
+    obtain ⟨pre1, s', pre2, h1, h2, h3, h4, h5⟩ := (entries_justified cfg pre).2 e he
+    refine ⟨pre1, s', pre2 ++ [s], by rw [h1]; simp, by rw [h2, hk], h3, h4, ?_⟩
+    rw [advSum_snoc]; omega
+  · have hn' : has (sweep cfg.negSpan ((after cfg St.empty 0 pre).2 + s.adv)
+        (after cfg St.empty 0 pre).1.neg) s.key = false := by simpa using hn
+    have := (cache_follows_latest cfg _ _ s.key s.answers ha' hp' hn').1
+    exact ⟨pre, s, [], rfl, rfl, by rw [← this, h], ⟨ha', hp', hn'⟩, by simp [advSum]⟩
 
 /-! ## The monitor accepts every model history -/
 
